@@ -215,7 +215,8 @@ impl Acceptor {
                     Err(_) => {
                         // retransmit on timeout
                         tsx.respond_provisional(&mut response).await?;
-                        delta = T1 * 2;
+                        // the interval doubles with every retransmission (RFC 3262 Section 3)
+                        delta *= 2;
                     }
                 }
             }
